@@ -3,6 +3,7 @@ import Model.LogHandlers
 import Model.TraceProto
 import Model.LogEntry
 import Model.LogFanout
+import Model.LogNest
 /-! Model driver of C13: a stateful line protocol over `TL` (tracelog) and `ML` (multilog). -/
 open Proto
 
@@ -10,7 +11,7 @@ namespace C13Drv
 
 inductive H where
   | tl (h : TL.Handler)
-  | ml (m : ML.Handler)
+  | ml (m : ML.Node)      -- a fan-out handler: a tree whose inner nodes are fan-out handlers given to `multilog.New`
 
 structure St where
   store : TL.Store := {}
@@ -193,8 +194,8 @@ def childOf (s : St) (i : Nat) (c : TL.Handler) : ML.Child :=
       else .panic ((s.panicMsg.lookup k).getD ("sinkpanic" ++ toString k))
   { id := i, minLevel := c.level, outcome := oc }
 
-def children (s : St) (m : ML.Handler) : List ML.Child :=
-  (m.children.zipIdx).map fun (c, i) => childOf s i c
+def children (s : St) (m : ML.Node) : List ML.Child :=
+  (m.leaves.zipIdx).map fun (c, i) => childOf s i c
 
 /-- hand a record to one tracelog handler -/
 def tlHandle (s : St) (h : TL.Handler) (r : TL.Record) : St × List (Nat × TL.Bytes) × TL.Ret :=
@@ -223,9 +224,10 @@ def doLog (s : St) (h : H) (r : TL.Record) : St × String :=
     (s', " ".intercalate (showWrites ws ++ [out, nonNil s [t], showSentinels s']))
   | .ml m =>
     let res := ML.handle (children s m) r.level
-    -- the deliveries themselves: `ML.handleTL` (every enabled child renders and delivers the record to its sink, in
-    -- order); each child's return value then goes through `runHandler` into the accumulation on the errs heap
-    let fan := ML.handleTL s.store s.sinks m r
+    -- the deliveries themselves: `ML.Node.handle` — the loop of `multilog.Handle` at every level of the tree (each level
+    -- asks its children for `Enabled`; `Lemmas/LogNest.lean`: equal to the flat `ML.handleTL` over the leaves); each
+    -- leaf's return value then goes through `runHandler` into the accumulation on the errs heap
+    let fan := m.handle s.store r { sinks := s.sinks }
     let ws := fan.writes
     let (s', rets) := fan.rets.foldl (fun (acc : St × List Errs.Val) kr =>
       let (s3, v) := retVal acc.1 kr.2
@@ -242,12 +244,12 @@ def doLog (s : St) (h : H) (r : TL.Record) : St × String :=
       | .err msg => msg.startsWith "sinkagg" | _ => false
     let ret := if ret == abstract || hasAgg then ret else ret ++ " list-model-differs:" ++ abstract
     let ret := if res.deliveries.length == fan.rets.length then ret else ret ++ " fanout-models-differ"
-    (s', " ".intercalate (showWrites ws ++ [ret, nonNil s (res.deliveries.filterMap (m.children[·]?)), showSentinels s']))
+    (s', " ".intercalate (showWrites ws ++ [ret, nonNil s (res.deliveries.filterMap (m.leaves[·]?)), showSentinels s']))
 
-def isEnabled (s : St) (h : H) (level : Int) : Bool :=
+def isEnabled (_s : St) (h : H) (level : Int) : Bool :=
   match h with
   | .tl t => TL.enabled t level
-  | .ml m => ML.enabled (children s m) level
+  | .ml m => m.enabled level
 
 def nowTok : TL.Bytes := TL.ascii " | NOW | "
 def stackTok : TL.Bytes := TL.ascii "<<STACK>>"
@@ -461,7 +463,7 @@ def step (s : St) (line : String) : St × String :=
         let upd (t : TL.Handler) : TL.Handler := if t.sink == k then { t with level := lvl } else t
         ({ s with handlers := s.handlers.map fun (n, h) => match h with
             | .tl t => (n, .tl (upd t))
-            | .ml m => (n, .ml { children := m.children.map upd }) }, "ok")
+            | .ml m => (n, .ml (m.mapLeaves upd)) }, "ok")
       else (s, "bad-op")
     | _, _ => (s, "bad-op")
   | ["norm", lvl, depth, given] =>
@@ -471,11 +473,10 @@ def step (s : St) (line : String) : St × String :=
       (s, "level=" ++ toString l ++ " depth=" ++ toString d ++ " sink=" ++ (if given == "1" then "given" else "stderr"))
     | _, _ => (s, "bad-op")
   | "mnew" :: m :: kids =>
-    -- a child that is itself a fan-out handler contributes its children in place (`ML.flatChildren`: nesting is
-    -- transparent — the inner handler recovers, accumulates and hands back an aggregate that the outer one flattens)
+    -- a child may itself be a fan-out handler: the tree is kept as it is (`Model/LogNest.lean`)
     match kids.mapM (fun k => match getH s k with
-        | some (.tl t) => some (ML.Kid.leaf t) | some (.ml m) => some (ML.Kid.fan m) | none => none) with
-    | some ks => (setH s m (.ml { children := ML.flatChildren ks }), "ok")
+        | some (.tl t) => some (ML.Node.leaf t) | some (.ml m) => some m | none => none) with
+    | some ks => (setH s m (.ml (.fan ks)), "ok")
     | none => (s, "bad-op")
   | ["wg", n, p, name] =>
     match getH s p, hexBytes? name with
@@ -483,8 +484,8 @@ def step (s : St) (line : String) : St × String :=
       let (σ, t', same) := TL.withGroup s.store t name
       (setH { s with store := σ } n (.tl t'), (fun (_ : Bool) => "ok") same)
     | some (.ml m), some name =>
-      let (σ, m', same) := ML.withGroup s.store m name
-      (setH { s with store := σ } n (.ml m'), (fun (_ : Bool) => "ok") same)
+      let (σ, m') := m.withGroup s.store name
+      (setH { s with store := σ } n (.ml m'), "ok")
     | _, _ => (s, "bad-op")
   | "wa" :: n :: p :: ws =>
     match getH s p, parseAttrs ws [] with
@@ -492,8 +493,8 @@ def step (s : St) (line : String) : St × String :=
       let (σ, t', same) := TL.withAttrs s.store t as
       (setH { s with store := σ } n (.tl t'), (fun (_ : Bool) => "ok") same)
     | some (.ml m), some as =>
-      let (σ, m', same) := ML.withAttrs s.store m as
-      (setH { s with store := σ } n (.ml m'), (fun (_ : Bool) => "ok") same)
+      let (σ, m') := m.withAttrs s.store as
+      (setH { s with store := σ } n (.ml m'), "ok")
     | _, _ => (s, "bad-op")
   | ["en", h, lvl] =>
     match getH s h, lvl.toInt? with
